@@ -40,6 +40,14 @@ def evaluate(prop, facts, tier):
     except core.AnchorMissing as e:
         ctx.ob("anchor", str(e), "missing", "violation",
                "an anchor confirmed on the reference tree is gone; the rule instance cannot be evaluated (fail closed)")
+    except (TypeError, IndexError, KeyError, AttributeError, ValueError) as e:
+        # a rule met a code shape it does not understand (never on the reference tree, which every commit of /verif is run against): the
+        # shape the rule was written for is gone, which is the same situation as a lost anchor - reported, not crashed
+        import traceback
+        tb = traceback.extract_tb(e.__traceback__)
+        where = next((f for f in reversed(tb) if "/rules/" in f.filename or "structure.py" in f.filename), tb[-1])
+        ctx.ob("anchor", "%s in %s" % (type(e).__name__, where.name), "shape not understood", "violation",
+               "the code the rule %s() was written for has a shape the rule cannot read (%s: %s); the rule instance cannot be evaluated (fail closed)" % (where.name, type(e).__name__, str(e)[:80]))
     return ctx
 
 
